@@ -23,6 +23,8 @@
 //	O2 value       the migrated template evaluates (real evaluator) to what the reference interpreter of the
 //	               legacy tree (ref.go) gives, on random operands
 //	O3 literals    @("s") with quotes doubled migrates to a template that evaluates to s (alone and inside &)
+//	O5 grouping    for every node of a clean tree, each operand migrated on its own is a subtree (up to
+//	               parentheses) of the migrated node — needs no knowledge of what the functions mean
 //	O4 body        MigrateTemplate(t) is the concatenation over the scanner tokens of t of: the body token
 //	               itself / the migration of the identifier or expression alone
 package main
@@ -561,6 +563,98 @@ func oracleParses(res *hx.Result, tc tcase, trees []*lt, out string) {
 	}
 }
 
+// O5: operand grouping, independent of what the functions mean: for every node of a clean legacy tree and every
+// operand of it, the expression the operand migrates to on its own is (up to parentheses) a subtree of the
+// expression the node migrates to.  Skipped for operands the migrator is meant to rewrite (integer literals in
+// decremented positions, by_spaces arguments).
+func subtreeStrings(e excellent.Expression, into map[string]bool) {
+	e.Visit(func(x excellent.Expression) {
+		into[stripParens(x).String()] = true
+	})
+}
+
+func stripParens(e excellent.Expression) excellent.Expression {
+	for {
+		p, ok := e.(*excellent.Parentheses)
+		if !ok {
+			return e
+		}
+		e = p.Exp
+	}
+}
+
+func parseMigrated(t *lt) (excellent.Expression, bool) {
+	out, hasErr, pan := migrateReal("@("+t.text(nil)+")", options{})
+	if hasErr || pan != "" {
+		return nil, false
+	}
+	segs := scanReal(out, flows.RunContextTopLevels)
+	if len(segs) != 1 || segs[0].T == 0 {
+		return nil, false
+	}
+	x, err := excellent.Parse(segs[0].S, nil)
+	if err != nil {
+		return nil, false
+	}
+	return x, true
+}
+
+func oracleGrouping(res *hx.Result, tc tcase, t *lt) {
+	var visit func(n *lt)
+	failed := false
+	visit = func(n *lt) {
+		if failed {
+			return
+		}
+		if len(n.A) > 0 && n.K != "paren" {
+			whole, ok := parseMigrated(n)
+			if ok {
+				sub := map[string]bool{}
+				subtreeStrings(whole, sub)
+				var pms []string
+				if n.K == "call" {
+					if e, has := tableByName[strings.ToLower(n.S)]; has && e.Kind == "params" {
+						pms = e.PMs
+					}
+				}
+				for i, c := range n.A {
+					if i < len(pms) && pms[i] == "byspaces" {
+						continue
+					}
+					if c.K == "str" && c.S == "" {
+						continue // @("") migrates to the empty template
+					}
+					res.OracleChecks++
+					part, ok := parseMigrated(c)
+					if !ok {
+						continue
+					}
+					if i < len(pms) && pms[i] == "decremented" {
+						// an operand that migrates to an integer literal is decremented on the spot
+						lit := part
+						if ng, isNeg := lit.(*excellent.Negation); isNeg {
+							lit = ng.Exp
+						}
+						if _, isNum := lit.(*excellent.NumberLiteral); isNum {
+							continue
+						}
+					}
+					if !sub[stripParens(part).String()] {
+						failed = true
+						res.Fail("grouping:operand-not-a-subtree:"+rootClass(n)+">"+rootClass(c), tc,
+							fmt.Sprintf("legacy %q: operand %q migrates on its own to %q, which is not a subtree of the migrated %q", n.text(nil), c.text(nil), part.String(), whole.String()))
+						return
+					}
+				}
+			}
+		}
+		for _, c := range n.A {
+			visit(c)
+		}
+	}
+	visit(t)
+}
+
 // O4: text outside expressions is unchanged, and the migration is compositional over the scanner tokens
 func oracleBody(res *hx.Result, tc tcase, out string) {
 	res.OracleChecks++
@@ -695,6 +789,13 @@ func main() {
 		oracleBody(res, tc, out)
 		if clean && !hasErr {
 			oracleParses(res, tc, trees, out)
+			if tc.Options == (options{}) {
+				for _, t := range trees {
+					if !hasBackslashLiteral(t) {
+						oracleGrouping(res, tc, t)
+					}
+				}
+			}
 		}
 		return out, hasErr
 	}
